@@ -42,8 +42,17 @@ def units(tier, seed):
         shapes = [(m, m + s) for m in (2, 3, 4) for s in (1, 2, 3)]
         gen = AL.systems(shapes, seed=seed, cross=True, bounds=["ub-finite", "lb-pos", "scalar", "lb-mixed"])
     out = []
+    plain = {}
     for names, A, (lb, ub), K, bl in gen:
         out.append(dict(names=names, spec=B.spec_of(A, lb, ub, K, bl), tier=tier))
+        if names.get("K") == "default" and names.get("baseline") == "default" and names.get("bounds") in ("ub-finite", "lb-mixed"):
+            plain.setdefault((A.shape, names.get("bounds")), (names, A, lb, ub))
+    # the same systems in other capture units (the range of solutions in intensity space does not depend on the unit of capture)
+    for (shape, bn), (names, A, lb, ub) in sorted(plain.items(), key=lambda kv: str(kv[0])):
+        for label, sc in (("x1e-3", 1e-3), ("x1e-5", 1e-5), ("x1e3", 1e3)):
+            if tier == "quick" and shape[0] > 3 and label != "x1e-3":
+                continue
+            out.append(dict(names=dict(names, capture_unit=label), spec=B.spec_of(A * sc, lb, ub, None, None), tier=tier))
     return out
 
 
@@ -200,7 +209,8 @@ def run_unit(unit, rec):
                observed=dict(min=mn, max=mx), expected=dict(min=omin, max=omax, margin=mg, target=t, x=xgen), script=_script(spec, t))
             continue
         # c: the fitted solution lies between the ends
-        if cls == "inside" and idx % 3 == 0:
+        # (fits are claimed for well-scaled capture units only (C04): not asserted for the systems in other capture units)
+        if cls == "inside" and idx % 3 == 0 and "capture_unit" not in names:
             rec.trans()
             try:
                 Xf, _ = est.fit(t[None])
